@@ -190,7 +190,10 @@ def run(ctx):
     ctx.guarded('C13-D1', 'obs.py@jackknife', d1_jackknife, ctx, obs)
     ctx.guarded('C13-D2', 'obs.py@bootstrap', d2_bootstrap, ctx, obs)
     ctx.guarded('C13-D3', 'obs.py@seed', d3_seed, ctx, obs)
-    ctx.floor('C13 obligations', len(ctx.obs), 18)
+    from .. import samplerule
+    ctx.rule('C13-D4', 'exported data = fluctuation + replica mean of the same chain')
+    ctx.guarded('C13-D4', 'obs.py@samples', samplerule.check, ctx, 'C13-D4', obs, ('Obs.export_jackknife', 'Obs.export_bootstrap'))
+    ctx.floor('C13 obligations', len(ctx.obs), 20)
 
 
 SELFTEST = [
